@@ -330,11 +330,15 @@ def history(seed, hk, nops, maxpool=4):
                         if nb > (wn + 7) // 8:
                             bs[0] = 0
                             bs[1] &= (1 << top) - 1
-                    data = rng.choice([bytes(bs), tuple(bs), list(bs)])
+                    # "an iterable sequence of integers": also the one-shot kinds
+                    form = rng.choice(["bytes", "tuple", "list", "bytearray", "iter", "gen"])
+                    data = {"bytes": bytes(bs), "tuple": tuple(bs), "list": list(bs), "bytearray": bytearray(bs),
+                            "iter": iter(list(bs)), "gen": (x for x in list(bs))}[form]
                 else:
+                    bs = None
                     data = rng.choice(["x", None, 1.5])
                 e["ak"], e["a"] = _ixrec(nw)
-                e["val"] = _val(data)
+                e["val"] = _val(list(bs)) if (0.65 <= r < 0.9) else _val(data)
                 dst = len(pool) if len(pool) < maxpool else rng.randrange(len(pool))
                 e["dst"] = dst + 1
 
